@@ -6,6 +6,7 @@ f25_0:
   call f6_2
   call f18_3
   call f26_0
+  mov wvsv0@GOTPCREL(%rip),%rax
   ret
 .section .text.f25_1,"ax",@progbits
 .globl f25_1
@@ -34,6 +35,7 @@ f25_3:
   call f4_1
   call f20_3
   lea d_f25_3(%rip),%rax
+  mov wvsv0(%rip),%rax
   ret
 .section .data.d_f25_3,"aw",@progbits
 .globl d_f25_3
